@@ -767,7 +767,46 @@ def _flag_form(fm: FuncModel, loop):
             tn = fm.cfgn(st.test)
             if fm.cfg.loop_header[loop].id not in _within(fm, loop, _tbranch(fm, loop), {tn.id}):
                 return F, val
+        # the same with a per-round accumulator instead of a Boolean: `acc = {}` first, `if not acc: break` at the end
+        # ("continue while this round found something")
+        acc = _acc_round(fm, loop)
+        if acc is not None:
+            return acc, "acc"
     return None
+
+
+def _acc_round(fm: FuncModel, loop) -> str | None:
+    if not loop.body:
+        return None
+    first = loop.body[0]
+    if not (isinstance(first, ast.Assign) and len(first.targets) == 1 and isinstance(first.targets[0], ast.Name)
+            and _is_empty_container(first.value)):
+        return None
+    A = first.targets[0].id
+    for st in loop.body[1:]:
+        if isinstance(st, ast.If) and not st.orelse and st.body and isinstance(st.body[-1], ast.Break):
+            c = st.test
+            empty = (isinstance(c, ast.UnaryOp) and isinstance(c.op, ast.Not) and isinstance(c.operand, ast.Name) and c.operand.id == A) or \
+                    (isinstance(c, ast.Compare) and len(c.ops) == 1 and isinstance(c.ops[0], ast.Eq) and text(c.left) == f"len({A})"
+                     and text(c.comparators[0]) == "0")
+            if empty:
+                tn = fm.cfgn(st.test)
+                if fm.cfg.loop_header[loop].id not in _within(fm, loop, _tbranch(fm, loop), {tn.id}):
+                    # nothing else re-binds the accumulator inside the round
+                    if len([n for n in _assigns(fm, loop, A)]) == 1:
+                        return A
+    return None
+
+
+def _acc_events(fm: FuncModel, loop, A: str):
+    """(reset node, nodes that put something into the accumulator)"""
+    nodes = _nodes_in(fm, loop)
+    reset = [n for n in nodes if n.kind == "stmt" and n.ast is loop.body[0]]
+    grows = [n for n in nodes if _calls_on(n, A, {"append", "add", "update", "extend", "setdefault"}) or
+             (n.kind == "stmt" and isinstance(n.ast, ast.Assign) and isinstance(n.ast.targets[0], ast.Subscript)
+              and text(n.ast.targets[0].value) == A) or
+             (n.kind == "stmt" and isinstance(n.ast, ast.AugAssign) and text(n.ast.target) == A)]
+    return reset, grows
 
 
 def rec_flag(ck, fm: FuncModel, loop):
@@ -776,11 +815,16 @@ def rec_flag(ck, fm: FuncModel, loop):
         return None
     F, cont = form
     nodes = _nodes_in(fm, loop)
-    is_cont = is_true if cont else is_false
-    is_stop = is_false if cont else is_true
-    sets_true = [n for n in nodes if n.kind == "stmt" and isinstance(n.ast, ast.Assign) and text(n.ast.targets[0]) == F and is_stop(n.ast.value)]
-    clears = [n for n in nodes if n.kind == "stmt" and isinstance(n.ast, ast.Assign) and text(n.ast.targets[0]) == F and is_cont(n.ast.value)]
-    other = [n for n in _assigns(fm, loop, F) if n not in sets_true and n not in clears]
+    if cont == "acc":
+        sets_true, clears = _acc_events(fm, loop, F)
+        other = []
+        cont = "non-empty"
+    else:
+        is_cont = is_true if cont else is_false
+        is_stop = is_false if cont else is_true
+        sets_true = [n for n in nodes if n.kind == "stmt" and isinstance(n.ast, ast.Assign) and text(n.ast.targets[0]) == F and is_stop(n.ast.value)]
+        clears = [n for n in nodes if n.kind == "stmt" and isinstance(n.ast, ast.Assign) and text(n.ast.targets[0]) == F and is_cont(n.ast.value)]
+        other = [n for n in _assigns(fm, loop, F) if n not in sets_true and n not in clears]
     if isinstance(loop.test, ast.Name) and not sets_true and not clears:
         return None  # `while xs:` over a container, not a Boolean flag
     if other:
